@@ -67,9 +67,33 @@ func monitor(c Case) (kind, what string, params P) {
 		if n == 0 && len(out) != 0 {
 			return fail("xslices-chunk-empty", "non-empty result for an empty slice")
 		}
+	case "chunkz":
+		// Chunk on a slice of zero-size elements with an extreme length: same documentation
+		n, size := atoi(a[0]), atoi(a[1])
+		if n < 0 || size < 1<<60 {
+			return
+		}
+		s := make([]struct{}, n)
+		var out [][]struct{}
+		if pan, v := vlib.Try(func() { out = xslices.Chunk(s, size) }); pan {
+			return fail("xslices-chunk-unexpected-panic", "len %d: panicked for a positive chunkSize: %v", n, v)
+		}
+		rest := n
+		for i, ch := range out {
+			if i < len(out)-1 && len(ch) != size {
+				return fail("xslices-chunk-sizes", "chunk %d has length %d, want %d", i, len(ch), size)
+			}
+			if len(ch) == 0 || len(ch) > size || len(ch) > rest {
+				return fail("xslices-chunk-sizes", "chunk %d has length %d", i, len(ch))
+			}
+			rest -= len(ch)
+		}
+		if rest != 0 {
+			return fail("xslices-chunk-concat", "the chunk lengths add up to %d less than len(s) = %d", rest, n)
+		}
 	case "removeunordered":
 		l, idx, n := decList(a[0]), atoi(a[1]), atoi(a[2])
-		if idx < 0 || n < 0 || idx+n > len(l) {
+		if idx < 0 || n < 0 || idx > len(l) || n > len(l)-idx { // (overflow-free form of idx+n > len)
 			return // outside the documented domain
 		}
 		s := clone(l)
@@ -192,10 +216,11 @@ func monitor(c Case) (kind, what string, params P) {
 		if !eqInts(r, l) {
 			return fail("xslices-shrink-contents", "contents %v", r)
 		}
-		if cap(r) > len(l)+n {
+		// "so that cap(s) <= len(s) + n", in the integers: cap - len <= n (no overflow: 0 <= len <= cap)
+		if cap(r)-len(l) > n {
 			return fail("xslices-shrink-cap", "cap %d > len+n", cap(r))
 		}
-		if cp <= len(l)+n && (cap(r) != cp || dataPtr(r) != dataPtr(s)) {
+		if cp-len(l) <= n && (cap(r) != cp || dataPtr(r) != dataPtr(s)) {
 			return fail("xslices-shrink-needless-realloc", "reallocated although cap(s) <= len(s)+n")
 		}
 	case "search":
